@@ -849,6 +849,12 @@ void execute(const Plan &plan, Ctx &ctx)
                     ctx.violate("C07", "library-key-without-open", "", "the library gained the key '" + key + "' without a successful open of that URL");
                     return;
                 }
+                if (!w.vfs.versions[size_t(ver)].wellFormed()) {
+                    // what makes "repair, then resolve again with the same importer" work for damaged files:
+                    // a file that could not be parsed as XML is reported and never kept
+                    ctx.violate("C07", "library-kept-unparseable-file", w.vfs.versions[size_t(ver)].tag, "the importer's library now holds '" + key + "' although what was served for it is not well-formed XML (" + w.vfs.versions[size_t(ver)].tag + "): a repaired file would never be read again");
+                    return;
+                }
                 imp.refLibrary[key] = ver;
             }
             // reference verdict(s)
@@ -938,7 +944,9 @@ void execute(const Plan &plan, Ctx &ctx)
                     ctx.violate("C07", "resolve-false-but-satisfiable", tags, "resolveImports returned false although every transitive import can be satisfied; last issue: " + d);
                     return;
                 }
-                if (real && !undetermined && unresolved) {
+                // (only when the file layer showed one consistent world during the call: with in-flight changes served to
+                // different opens the model may legitimately be linked to a mixture of versions)
+                if (real && !undetermined && unresolved && expected.size() == 1) {
                     // Which import of the closure was left unresolved?  (walks the real objects the way the closure is defined)
                     std::string where = structural;
                     ctx.violate("C07", "resolved-but-has-unresolved-imports", structural,
